@@ -209,3 +209,15 @@ Example ex_dags_failed :
   let ds := [(ex_root, mktrace [ld_of ex_root ex_rootd] true); (ex_mid, mktrace [] false); (ex_leaf, mktrace [ld_of ex_leaf ex_leafd] true)] in
   snd (sc_write_dags 1 ds) = false /\ sc_prepare_dags ds = None /\ sc_gets_dags ds = [ex_root].
 Proof. repeat split; vm_compute; reflexivity. Qed.
+
+(* paddings above the allocation limit (hypotheses of the wrap / panic statements are satisfiable):
+   index padding 2^64-50 with an index: data offset 58 fits, index offset wraps, WriteTo panics after
+   the payload; data padding 2^64-52: header out (index offset wrapped), then the panic *)
+Example ex_index_offset_wraps :
+  let o := mktopts 7 (two64 - 50) codec_mh_sorted in
+  two64 <= 51 + o_dpad o + 0 + o_ipad o
+  /\ w_err (write_to ex_order ex_root o 0 (mktrace ex_loads true)) = Some TPanic
+  /\ blen (w_bytes (write_to ex_order ex_root o 0 (mktrace ex_loads true))) = 117
+  /\ snd (write_v2_header (mktopts (two64 - 52) 0 codec_mh_sorted) 59) = Some TPanic
+  /\ w_err (write_to ex_order ex_root (mktopts 7 (two64 - 100) codec_none) 0 (mktrace ex_loads true)) = None.
+Proof. cbv zeta. split; [vm_compute; intro X; discriminate X|]. repeat split; vm_compute; reflexivity. Qed.
